@@ -52,7 +52,7 @@ def one_declaration(draw, layout=True):
             names = draw(c06.distinct(n, "col"))
         else:
             names = draw(gen.distinct_names(n))
-        c["cols"] = [[nm] + list(draw(gen.type_and_size(allow_random_word=False))) + [draw(st.sampled_from([None, "NULL", "NOT NULL"]))] for nm in names]
+        c["cols"] = [[nm] + list(draw(gen.type_and_size(allow_random_word=False))) + [draw(st.sampled_from([None, None, "NULL", "NOT NULL", "NOT NULL", "PRIMARY KEY", "UNIQUE"]))] for nm in names]
     elif kind == "kv":
         n = draw(st.integers(1, 3))
         keys = draw(gen.distinct_names(n))
@@ -241,8 +241,8 @@ class C18(Prop):
                     if got != exp:
                         out.fail("object-attributes", "expected %r got %r; %r" % (exp, got, ddl))
                 elif k == "table":
-                    got = [(a.get("name"), a.get("type"), a.get("size"), a.get("nullable")) for a in props.get("columns", [])]
-                    exp = [(a[0], a[1], gen.expected_size(a[2]), a[3] != "NOT NULL") for a in c["cols"]]
+                    got = [(a.get("name"), a.get("type"), a.get("size"), a.get("nullable"), a.get("unique"), bool(a.get("primary_key"))) for a in props.get("columns", [])]
+                    exp = [(a[0], a[1], gen.expected_size(a[2]), a[3] not in ("NOT NULL", "PRIMARY KEY"), a[3] == "UNIQUE", a[3] == "PRIMARY KEY") for a in c["cols"]]
                     if got != exp:
                         out.fail("table-type-columns", "expected %r got %r; %r" % (exp, got, ddl))
                 else:
